@@ -41,6 +41,6 @@ PROP = {
 META = {
     "design_ref": "DESIGN.md section 4, C02",
     "technique": "kernel-wait interposition (epoll_wait/select defined by the harness executable) + model-based stateful PBT (rapidcheck) + coverage-guided fuzzing (libFuzzer) of generated timer histories dispatched by the production loop in virtual time (hook H1), checked inside every callback and after every loop pass against a reference model of the statement and against model-independent invariants, under ASan/UBSan with pool poisoning (H3); plus a real-clock never-early sub-check without the hook",
-    "level_text": "Generated histories on up to 12 live TimerEvent objects (64 per history) of one loop, on both back-ends (epoll, select), a third of them through one eventx::TimerPool object (doEvery/doAfter/cancel with own and with stale tokens, cleanup() from outside and from inside task callbacks with the pool used on afterwards): operations outside callbacks (create, initialize / re-initialize while enabled, enable, enable twice, disable, destroy, before runLoop() or inside the running loop) slow non-timer work between operations, callbacks that take 1..90 ms or a whole interval before and/or after their action (the virtual clock moves inside the loop pass), interleaved with virtual-clock advances (0, 1, to the next deadline minus 1, exactly to the next deadline, k periods + r of a persistent timer, 2^31, 2^32-1, 2^32, 2^32+x, 2^40; clock origins 1, 10^6, 2^31-3, 2^32-3, 2^52) and per-timer callback scripts indexed by firing number (disable/cancel self, disable / enable / re-initialize / re-initialize+enable / restart / destroy another timer with a bias to timers that are due in the same pass, re-initialize self with a new period or mode, re-enable a one-shot from its own callback, create and enable a brand-new timer). Inside every callback the harness checks that the timer exists, is enabled, has reached its deadline and holds the smallest deadline of all enabled timers (sequence of groups of equal deadline, order inside a group free), that the k-th callback is not before t_enable + k*d, and isEnabled() (false inside a one-shot's callback); after every pass that no enabled timer is left whose deadline had been reached when the pass began and that every enabled persistent timer has been invoked between floor((pass_start - t_enable)/d) and floor((now - t_enable)/d) times (equal unless a callback took time); after every operation that isEnabled() of every live timer agrees with the model; at the end everything pending is served, everything is disabled, then destroyed, and the loop keeps running 2^34+2^35 ms further without any callback. Use-after-free of pooled timer records or destroyed events is reported by ASan. A third sub-check (wait_arg) runs one real loop pass per step with epoll_wait/select interposed and checks the timeout handed to the kernel for generated sets of armed/disabled timers (intervals incl. the 2^31/2^32 tails), pending runNext/runInLoop work and clock positions relative to the nearest deadline: finite while a timer is armed, never beyond the nearest deadline. A second sub-check runs 3 timers (intervals mostly 1 ms apart, restart/disable scripts) on the real steady_clock without the hook and asserts only 'never early'. Exploration only: no counter-example among N generated histories.",
+    "level_text": "Generated histories on up to 12 live TimerEvent objects (64 per history) of one loop, on both back-ends (epoll, select), a third of them through one eventx::TimerPool object (doEvery/doAfter/cancel with own and with stale tokens, cleanup() from outside and from inside task callbacks with the pool used on afterwards): operations outside callbacks (create, initialize / re-initialize while enabled, enable, enable twice, disable, destroy, before runLoop() or inside the running loop) slow non-timer work between operations, callbacks that take 1..90 ms or a whole interval before and/or after their action (the virtual clock moves inside the loop pass), interleaved with virtual-clock advances (0, 1, to the next deadline minus 1, exactly to the next deadline, k periods + r of a persistent timer, 2^31, 2^32-1, 2^32, 2^32+x, 2^40; clock origins 1, 10^6, 2^31-3, 2^32-3, 2^52) and per-timer callback scripts indexed by firing number, each a single action or a sequence of up to 4 actions on the own timer and on others (disable/cancel self, disable / enable / re-initialize / re-initialize+enable / restart / destroy another timer with a bias to timers that are due in the same pass, re-initialize self with a new period or mode, re-enable a one-shot from its own callback, create and enable a brand-new timer). Inside every callback the harness checks that the timer exists, is enabled, has reached its deadline and holds the smallest deadline of all enabled timers (sequence of groups of equal deadline, order inside a group free), that the k-th callback is not before t_enable + k*d, and isEnabled() (false inside a one-shot's callback); after every pass that no enabled timer is left whose deadline had been reached when the pass began and that every enabled persistent timer has been invoked between floor((pass_start - t_enable)/d) and floor((now - t_enable)/d) times (equal unless a callback took time); after every operation that isEnabled() of every live timer agrees with the model; at the end everything pending is served, everything is disabled, then destroyed, and the loop keeps running 2^34+2^35 ms further without any callback. Use-after-free of pooled timer records or destroyed events is reported by ASan. A third sub-check (wait_arg) runs one real loop pass per step with epoll_wait/select interposed and checks the timeout handed to the kernel for generated sets of armed/disabled timers (intervals incl. the 2^31/2^32 tails), pending runNext/runInLoop work and clock positions relative to the nearest deadline: finite while a timer is armed, never beyond the nearest deadline. A second sub-check runs 3 timers (intervals mostly 1 ms apart, restart/disable scripts) on the real steady_clock without the hook and asserts only 'never early'. Exploration only: no counter-example among N generated histories.",
     "level_note": "Trusted: the reference model in harness/C02/timers.cpp (a handful of lines per operation, written from the statement), the virtual clock hook H1 (cross-checked by the real-clock sub-check for the never-early direction), ASan/UBSan. Not asserted: order inside a group of equal deadlines, the number of loop passes between deadline and callback (up to 3 extra passes tolerated, never needed), return values of enable/disable/initialize/cancel, real sleep lengths. Bounds: intervals 1..2^41 ms, <= 12 live timers, <= 300 operations per history, firing storms cut off after 300 callbacks per pass by self-disabling callbacks.",
 }
